@@ -16,6 +16,9 @@ SHAPES = {
     "generic_inst": (lambda cid: "Gen<u8>", lambda n: 'Gen { name: "%s", t: 3u8 }' % n, "deps.name"),
     "generic_inst2": (lambda cid: "self::Gen<(u8, i8)>", lambda n: 'Gen { name: "%s", t: (3u8, 4i8) }' % n, "deps.name"),
     "abs_path": (lambda cid: "::vrt::ExtCfg", lambda n: '::vrt::ExtCfg { name: "%s", id: 7 }' % n, "deps.name"),
+    # the concrete dependency is itself an application layer (`Impl<Cfg>`): a leaf like any other - `Impl<Impl<Cfg>>` and a
+    # downstream `Impl<App>` adopt it through the same forwarding impl
+    "impl_layer": (lambda cid: "::entrait::Impl<Cfg>", lambda n: '::entrait::Impl::new(Cfg { name: "%s", id: 7 })' % n, "deps.name"),
     "tuple": (lambda cid: "(u8, Cfg)", lambda n: '(1u8, Cfg { name: "%s", id: 7 })' % n, "deps.1.name"),
     "array": (lambda cid: "[Cfg; 2]", lambda n: '[Cfg { name: "%s", id: 7 }, Cfg { name: "other", id: 8 }]' % n, "deps[0].name"),
 }
@@ -30,7 +33,12 @@ def build_case(cid, rng):
     shape = rng.choice(sorted(SHAPES))
     ty_f, ctor_f, name_acc = SHAPES[shape]
     cty = ty_f(cid)
-    m = tg.random_method(rng, "subj", allow_async=True, allow_generic=rng.random() < 0.5, max_arity=4)
+    # (no lifted type parameter on top of an `Impl<..>` dependency: with `trait Subj<M>` the direct impl for `Impl<Cfg>` and the
+    # forwarding impl for `Impl<T: Subj<M>>` overlap in rustc's eyes - a downstream crate could implement `Subj<Theirs>` for `Cfg`)
+    m = tg.random_method(rng, "subj", allow_async=True, allow_generic=(rng.random() < 0.5 and shape != "impl_layer"), max_arity=4)
+    if shape == "impl_layer":
+        m.mconst, m.extra_tparam = None, False
+        m.params = [p_ for p_ in m.params if p_.generic != "[u8; KM]"]
     if m.mconst:
         # (the hand-written adoption below names the lifted type parameter only)
         m.mconst = None
@@ -235,7 +243,7 @@ pub fn run() {}
 
 def run(tier, seed):
     rep = core.Report(PROP, tier, seed)
-    rep.rule = ("random concrete-deps fns over type shapes {ident, self:: path, crate:: path, absolute ::krate:: path, generic instantiation, tuple, array}; a quarter of the fns stamped out by macro_rules! with the deps name / type supplied by the invocation x "
+    rep.rule = ("random concrete-deps fns over type shapes {ident, self:: path, crate:: path, absolute ::krate:: path, generic instantiation, an Impl<..> layer, tuple, array}; a quarter of the fns stamped out by macro_rules! with the deps name / type supplied by the invocation x "
                 "by-ref (elided / explicit lifetime) and by-value on Copy types x sync/async x owned/borrowed returns x 0-4 further args; "
                 "calls on C, Impl<C>, Impl<App> (hand-written adoption forwarding to a field) compared with the fn on &C. "
                 "non-trivial = shape other than a bare ident, async, or a return borrowed from the dependency")
